@@ -4,3 +4,8 @@ import DafRel.Props.C02
 #print axioms DafRel.Props.C02.join_of_selects_is_the_join
 #print axioms DafRel.Props.C02.join_factory_is_the_join
 #print axioms DafRel.Props.C02.sql_history_tree_sem
+#print axioms DafRel.Props.C02.emitted_select_returns_reference_rows
+#print axioms DafRel.Props.C02.emitted_payload_stands_for_reference_rows
+#print axioms DafRel.Props.C02.to_executable_returns_reference_rows
+#print axioms DafRel.Props.C02.sql_history_executes_to_direct_rows
+#print axioms DafRel.Props.C02.table_payload_is_faithful
